@@ -16,8 +16,9 @@ CONFIG = {
                   "wire), not proved. Addresses whose host part is wrong (e.g. unix:///path leaves Host empty) are outside C18.",
     "technique": "Lean 4 proof over regenerated tables (decide over complete finite tables + structural lemmas over all strings) "
                  "+ model/code differential correspondence + direct monitor",
-    "components": [{"name": "recon", "timeout": {"quick": 300, "thorough": 600}}, {"name": "scheme", "timeout": {"quick": 300, "thorough": 1500}}],
-    "rule": "scheme: every scheme any table knows plus relatives (41) x 10 tails x 4 positions x every input form (json/flag/yaml), "
+    "components": [{"name": "recon", "timeout": {"quick": 300, "thorough": 600}}, {"name": "scheme", "timeout": {"quick": 300, "thorough": 1500}},
+                   {"name": "seckinds", "timeout": {"quick": 600, "thorough": 1500}}],
+    "rule": "seckinds (shared with C04): every scheme spelling the real parser accepts against plain / certificate / TLS servers of its carrier family, what crossed the wire read off a recording relay; scheme: every scheme any table knows plus relatives (41) x 10 tails x 4 positions x every input form (json/flag/yaml), "
             "the --channel flag grammar (12 names x 12 protocols x 8 hosts), missing/non-string/scalar address, the listener "
             "splitter (19 specs x 3 forms), 27 mutations of every scheme (case, +tls, +tls+tls, +, white space, NBSP, digits, #, ?, /) "
             "x 3 tails x 4 positions, control bytes / fragments / queries, 1500 (quick) or 20000 (thorough) random word compositions; "
